@@ -100,7 +100,7 @@ func genTCPConn(r *Rng, cfg []cfgKey, focus string) tcpConnSpec {
 		switch r.Intn(4) {
 		case 0:
 			sp.Kind = "garbage"
-			sp.N = []int{0, 1, 10, 49, 50, 51, 73, 91, 300, 2000}[r.Intn(10)]
+			sp.N = []int{0, 1, 10, 49, 50, 51, 73, 91, 300, 2000, 20000, 70000}[r.Intn(12)]
 		case 1:
 			sp.Kind = "trunc"
 			sp.N = r.Intn(50)
